@@ -611,6 +611,12 @@ func addSyscall(rule *ruleData, syscall string) error {
 		}
 	}
 
+	// The number must fit the syscall bitmask. Without this check a number of
+	// 2^32 or more would be truncated to another syscall below.
+	if syscallNum < 0 || syscallNum >= syscallBitmaskSize*32 {
+		return fmt.Errorf("invalid syscall number %v", syscallNum)
+	}
+
 	rule.syscalls = append(rule.syscalls, uint32(syscallNum))
 	return nil
 }
